@@ -17,7 +17,14 @@ static void s_buf(void *const buf, const size_t size) {
 }
 static randombytes_implementation scripted = { s_name, s_random, NULL, NULL, s_buf, NULL };
 
-static void install(const unsigned char *s, size_t n) { script = s; script_len = n; script_pos = 0; exhausted = 0; req_n = 0; draws = NULL; randombytes_set_implementation(&scripted); }
+/* history between installing the source and generating: 0 none, 1 randombytes_close(), 2 randombytes_stir(), 3 close then stir
+   (the scripted source has no close / stir callbacks; the installed source must stay installed) */
+static int rng_pre;
+static void install(const unsigned char *s, size_t n) {
+    script = s; script_len = n; script_pos = 0; exhausted = 0; req_n = 0; draws = NULL; randombytes_set_implementation(&scripted);
+    if (rng_pre & 1) (void) randombytes_close();
+    if (rng_pre & 2) randombytes_stir();
+}
 static void restore(void) { randombytes_set_implementation(&randombytes_sysrandom_implementation); }
 static void put_sizes(FILE *o) { int i; fputs("sizes=", o); for (i = 0; i < req_n; i++) fprintf(o, "%s%zu", i ? "," : "", req_log[i]); }
 
@@ -132,4 +139,9 @@ static int op_gen_inner(int argc, char **argv, FILE *o) {
     (void) any_exhausted;
     hx_free(&s); return 0;
 }
-const hx_op ops_c18[] = { {"rng.uniform", op_uniform}, {"rng.drg", op_drg}, {"rng.drg_guard", op_drg_guard}, {"rng.gen", op_gen}, {NULL, NULL} };
+#define HIST(NAME, BASE, K) static int NAME(int c, char **v, FILE *o) { int r; rng_pre = K; r = BASE(c, v, o); rng_pre = 0; return r; }
+HIST(op_gen_h1, op_gen, 1) HIST(op_gen_h2, op_gen, 2) HIST(op_gen_h3, op_gen, 3)
+HIST(op_uniform_h1, op_uniform, 1) HIST(op_uniform_h2, op_uniform, 2) HIST(op_uniform_h3, op_uniform, 3)
+const hx_op ops_c18[] = { {"rng.uniform", op_uniform}, {"rng.drg", op_drg}, {"rng.drg_guard", op_drg_guard}, {"rng.gen", op_gen},
+    {"rng.gen.h1", op_gen_h1}, {"rng.gen.h2", op_gen_h2}, {"rng.gen.h3", op_gen_h3},
+    {"rng.uniform.h1", op_uniform_h1}, {"rng.uniform.h2", op_uniform_h2}, {"rng.uniform.h3", op_uniform_h3}, {NULL, NULL} };
